@@ -70,10 +70,7 @@ def state_field_path(o):
 
 def atom(b, o):
     """(name, polarity) of a boolean decision origin: state field reads, is_empty(), len() comparisons."""
-    pol = True
-    while o[0] == "unop" and o[1] == "Not":
-        pol = not pol
-        o = o[2]
+    o, pol = mir.norm_bool(o)
     if o[0] == "field" and o[2] in ("is_in_batch", "is_open"):
         return o[2], pol
     if o[0] == "call" and o[1].callee.get("name") == "is_empty":
